@@ -329,10 +329,32 @@ def check_out_callsites(ctx):
                     if U(c.func.value).split('.')[0] in ('np', 'numpy'):
                         continue
                     n += 1
-                    ctx.ob('out-contract', fi, c, U(out[0]) == U(c.func.value),
+                    same_dom = U(out[0]) == U(c.func.value) or domains_equal_here(c, U(c.func.value), U(out[0]))
+                    ctx.ob('out-contract', fi, c, same_dom,
                            'out= must be a factor over the receiver\'s own domain; receiver `%s`, out `%s`'
                            % (U(c.func.value), U(out[0])))
     ctx.count('out= call sites', n)
+
+
+def domains_equal_here(node, x, y):
+    """is `x.domain == y.domain` established on every path to `node`?  (the else branch of `.. or y.domain != x.domain or ..`, or the
+    body of `.. and y.domain == x.domain ..`)"""
+    eqs = ('%s.domain==%s.domain' % (x, y), '%s.domain==%s.domain' % (y, x))
+    nes = ('%s.domain!=%s.domain' % (x, y), '%s.domain!=%s.domain' % (y, x))
+
+    def parts(t, op):
+        return [v for v in t.values] if isinstance(t, ast.BoolOp) and isinstance(t.op, op) else [t]
+    child, n = node, getattr(node, '_parent', None)
+    while n is not None:
+        if isinstance(n, ast.If):
+            in_body = any(child is s_ or any(child is z for z in ast.walk(s_)) for s_ in n.body)
+            in_else = any(child is s_ or any(child is z for z in ast.walk(s_)) for s_ in n.orelse)
+            if in_body and any(U(v).replace(' ', '') in eqs for v in parts(n.test, ast.And)):
+                return True
+            if in_else and any(U(v).replace(' ', '') in nes for v in parts(n.test, ast.Or)):
+                return True
+        child, n = n, getattr(n, '_parent', None)
+    return False
 
 
 def check_axes_primitive(ctx):
